@@ -93,6 +93,7 @@ def expand_source_SCCs(
         # This makes the root artificially "expanded". Also, there
         # can be no attractors here because we are just fixing the source nodes.
         sd.node_data(root)["expanded"] = True
+        sd.node_data(root)["attractor_candidates"] = None
         sd.node_data(root)["attractor_seeds"] = []
         sd.node_data(root)["attractor_sets"] = []
         current_level = next_level
@@ -235,6 +236,11 @@ def attach_scc_subdiagram(
         else:
             # This node can be marked as expanded, because we know its successors.
             # We just need to add them in the for loop below.
+            if not sd.node_data(main_node_id)["expanded"]:
+                # Attractor data computed while the node had no successors is no longer valid.
+                sd.node_data(main_node_id)["attractor_seeds"] = None
+                sd.node_data(main_node_id)["attractor_candidates"] = None
+                sd.node_data(main_node_id)["attractor_sets"] = None
             sd.node_data(main_node_id)["expanded"] = True
 
         if check_maa:
@@ -259,6 +265,11 @@ def attach_scc_subdiagram(
             sd._ensure_edge(main_node_id, main_succ_id, inner_stable_motif)  # type: ignore
 
     # This makes the `attach_at` node expanded. We will not be adding new nodes to it later.
+    if not sd.node_data(attach_at)["expanded"]:
+        # Attractor data computed while the node had no successors is no longer valid.
+        sd.node_data(attach_at)["attractor_seeds"] = None
+        sd.node_data(attach_at)["attractor_candidates"] = None
+        sd.node_data(attach_at)["attractor_sets"] = None
     sd.node_data(attach_at)["expanded"] = True
     # Finally, if we are checking for MAAs, we can do that for the root too:
     if check_maa:
